@@ -18,17 +18,84 @@ import dns.rrset
 PROPERTY = "C16"
 
 
+class T:
+    """E7: an exact instant / duration in milliseconds.  The resolver mixes integer seconds (scripted clock advances,
+    lifetime, timeout) with the float back-off 0.1, 0.2, ... s; IEEE arithmetic on a symbolic value makes z3 answer
+    `unknown`, so the clock hands out this exact number type instead: +, -, comparisons with int / float / T."""
+    __slots__ = ("ms",)
+
+    def __init__(self, ms):
+        self.ms = ms
+
+    @staticmethod
+    def of(x):
+        if isinstance(x, T):
+            return x
+        if isinstance(x, float):
+            r = round(x * 1000)
+            if r / 1000 != x:
+                raise AssertionError("clock model: %r is not a whole number of milliseconds" % (x,))
+            return T(r)
+        return T(x * 1000)
+
+    def __add__(self, o):
+        return T(self.ms + T.of(o).ms)
+
+    __radd__ = __add__
+
+    def __sub__(self, o):
+        return T(self.ms - T.of(o).ms)
+
+    def __rsub__(self, o):
+        return T(T.of(o).ms - self.ms)
+
+    def __neg__(self):
+        return T(-self.ms)
+
+    def __lt__(self, o):
+        return self.ms < T.of(o).ms
+
+    def __le__(self, o):
+        return self.ms <= T.of(o).ms
+
+    def __gt__(self, o):
+        return self.ms > T.of(o).ms
+
+    def __ge__(self, o):
+        return self.ms >= T.of(o).ms
+
+    def __eq__(self, o):
+        return self.ms == T.of(o).ms
+
+    def __ne__(self, o):
+        return self.ms != T.of(o).ms
+
+    def __bool__(self):
+        return self.ms != 0
+
+    def __float__(self):
+        return self.ms / 1000
+
+    def __format__(self, spec):
+        return format(float(self), spec)
+
+    def __repr__(self):
+        return "T(%r ms)" % (self.ms,)
+
+    __hash__ = None
+
+
 class Clock:
-    """E7: integer clock advanced by the scripted servers and by sleep()."""
+    """E7: exact clock (see T) advanced by the scripted servers and by sleep(); `now` is in seconds (int or T)."""
     now = 1000
 
     @staticmethod
     def time():
-        return Clock.now
+        return T.of(Clock.now)
 
     @staticmethod
     def sleep(d):
-        Clock.now = Clock.now + d
+        Clock.now = T.of(Clock.now) + d
 
 
 dns.resolver.time = Clock
@@ -173,7 +240,7 @@ def reference(nservers, outcomes, advances, tcp, retry_servfail, raise_on_no_ans
     for qname in qnames:
         servers = list(range(nservers))
         current = list(servers)
-        backoff = 0.1
+        backoff = 100  # ms
         retry = None
         done_name = False
         while not done_name:
@@ -187,11 +254,11 @@ def reference(nservers, outcomes, advances, tcp, retry_servfail, raise_on_no_ans
                         return ("NoNameservers", log)
                     current = list(servers)
                     bo = backoff
-                    backoff = min(backoff * 2, 2)
+                    backoff = min(backoff * 2, 2000)
                 server = current.pop(0)
                 use_tcp = tcp
             now = now + bo
-            if now >= lifetime:
+            if now >= lifetime * 1000:
                 return ("LifetimeTimeout", log)
             if k < len(outcomes):
                 out, adv = outcomes[k], advances[k]
@@ -199,7 +266,7 @@ def reference(nservers, outcomes, advances, tcp, retry_servfail, raise_on_no_ans
                 out, adv = TIMEOUT, 2
             k += 1
             log.append((server, use_tcp, qname))
-            now = now + adv
+            now = now + adv * 1000
             if out in (ANSWER, CNAME_ANSWER):
                 return (("answer", qname, "target.example." if out == CNAME_ANSWER else qname), log)
             if out == NODATA:
